@@ -422,6 +422,9 @@ func (fr *Frame) execUnOp(x *ssa.UnOp, reach string, h Heap) {
 		}
 		r := isub("0", v.T)
 		lo, hi := intRange(x.Type())
+		if !u.nowrap {
+			r = u.convertIntWrap(r, x.Type())
+		}
 		if u.nowrap {
 			if _, lit := parseLit(r); !lit {
 				u.oblig("no-wrap", "negation does not overflow", implies(reach, and(app("<=", ilitB(lo), r), app("<=", r, ilitB(hi)))), nil)
@@ -483,7 +486,12 @@ func (fr *Frame) execBinOp(x *ssa.BinOp, reach string, h Heap) {
 		}
 		if !so.bv && x.Op == token.OR {
 			// a<<k | b with b < 2^k: disjoint bits
-			if r, cond, ok := fr.orDisjoint(x, a, b); ok {
+			if r, cond, ok := fr.orDisjoint(x, a, b); ok && !u.nowrap {
+				fr.havocVal(x, h) // wrap mode: the value of | is left unconstrained (within the type's range)
+				_ = r
+				_ = cond
+				return
+			} else if ok {
 				if cond != "true" {
 					u.oblig("or-disjoint", "operands of | have disjoint bits (needed to read | as +)", implies(reach, cond), nil)
 				}
@@ -504,6 +512,11 @@ func (fr *Frame) execBinOp(x *ssa.BinOp, reach string, h Heap) {
 				u.assume(u.typeInv(fr.vals[x].T, x.Type(), "0"))
 				return
 			}
+			if !u.nowrap {
+				// wrap mode (display code): the value of an unmodelled bit operation is left unconstrained
+				fr.havocVal(x, h)
+				return
+			}
 			u.unsupportedAt(reach, err+" in "+fr.fn.Name())
 			fr.havocVal(x, h)
 			return
@@ -517,6 +530,10 @@ func (fr *Frame) execBinOp(x *ssa.BinOp, reach string, h Heap) {
 		}
 		if wrapOK != "" && u.nowrap {
 			u.oblig("no-wrap", fmt.Sprintf("%s %s %s stays within %s", x.X.Name(), x.Op, x.Y.Name(), x.Type()), implies(reach, wrapOK), nil)
+		}
+		if wrapOK != "" && !u.nowrap {
+			// exact wrap-around semantics
+			res = u.convertIntWrap(res, x.Type())
 		}
 		fr.setVal(x, res)
 	case a.S == "Bool":
